@@ -131,6 +131,10 @@ def seedCorrcoef (seed : List K) (targets : List (List K)) : List K :=
 /-- `np.corrcoef` entry (Pearson coefficient of two rows) — documented numpy semantics -/
 def corrcoef1 (a b : List K) : K := seedCorrcoef1 a b
 
+/-- `CorrelationAnalyzer.corrcoef` = `np.corrcoef(data)` -/
+def corrcoefMatrix (data : List (List K)) : List (List K) :=
+  data.map fun a => data.map fun b => corrcoef1 a b
+
 /-- `xcorr_norm`: each computed sequence is divided by its zero-lag entry (index `N-1`) and
 multiplied by the correlation coefficient; then the pair fill -/
 def xcorrNormFill (var : Variant) (data : List (List K)) : List (List (List K)) :=
@@ -145,6 +149,60 @@ def xcorrNormFill (var : Variant) (data : List (List K)) : List (List (List K)) 
     else match var with
       | .current => up j i
       | .intended => (up j i).reverse.map conj
+
+/-! ### the analyzer as an object: one-time outputs read in any order
+
+`CorrelationAnalyzer` stores every output on first read (`setattr_on_read`) and hands the stored
+object out afterwards.  The state keeps the input and the three caches; `read` follows the
+getters: `corrcoef` and `xcorr` compute from the INPUT, `xcorr_norm` computes from the input and
+from `self.corrcoef` (which it thereby reads), never from the cached `xcorr`. -/
+
+inductive Out where | raw | norm | cc
+  deriving DecidableEq, Repr
+
+inductive Val (K : Type) where
+  | cube (v : List (List (List K)))
+  | mat (v : List (List K))
+
+structure AState (K : Type) where
+  data : List (List K)
+  raw : Option (List (List (List K)))
+  norm : Option (List (List (List K)))
+  cc : Option (List (List K))
+
+def AState.fresh (data : List (List K)) : AState K := ⟨data, none, none, none⟩
+
+/-- what a fresh analyzer returns for one output -/
+def compute (var : Variant) (data : List (List K)) : Out → Val K
+  | .raw => .cube (xcorrFill var data)
+  | .norm => .cube (xcorrNormFill var data)
+  | .cc => .mat (corrcoefMatrix data)
+
+def AState.readCc (s : AState K) : List (List K) × AState K :=
+  match s.cc with
+  | some v => (v, s)
+  | none => let v := corrcoefMatrix s.data; (v, { s with cc := some v })
+
+/-- one attribute read -/
+def AState.read (var : Variant) (s : AState K) : Out → Val K × AState K
+  | .cc => let (v, s') := s.readCc; (.mat v, s')
+  | .raw => match s.raw with
+    | some v => (.cube v, s)
+    | none => let v := xcorrFill var s.data; (.cube v, { s with raw := some v })
+  | .norm => match s.norm with
+    | some v => (.cube v, s)
+    | none =>
+      let (_, s') := s.readCc
+      let v := xcorrNormFill var s'.data
+      (.cube v, { s' with norm := some v })
+
+/-- a sequence of reads on one object: the values handed out, and the final state -/
+def AState.reads (var : Variant) (s : AState K) : List Out → List (Val K) × AState K
+  | [] => ([], s)
+  | o :: os =>
+    let (v, s') := s.read var o
+    let (vs, s'') := s'.reads var os
+    (v :: vs, s'')
 
 /-! ### entropies on exact joint counts -/
 
@@ -319,6 +377,27 @@ def handle (args : List String) : String :=
       if which = "norm" then
         s!"ok {showCube (xcorrNormFill .intended rs)} ; {showCube (xcorrNormFill .current rs)}"
       else s!"ok {showCube (xcorrFill .intended rs)} ; {showCube (xcorrFill .current rs)}"
+    | _, _ => "bad-op"
+  -- `seq <order> <k> n data`: read the outputs in `order` (comma separated raw|norm|cc) on ONE analyzer
+  -- object and print the k-th value handed out (both pair-fill variants)
+  | ["seq", order, k, n, data] =>
+    match k.toNat?, n.toNat?, parseFloatList? data with
+    | some k, some n, some d =>
+      let os := (order.splitOn ",").filterMap fun t =>
+        if t = "raw" then some Out.raw else if t = "norm" then some Out.norm else if t = "cc" then some Out.cc else none
+      let run := fun (var : Variant) =>
+        match ((AState.fresh (rows n d)).reads var os).1[k]? with
+        | some (Val.cube v) => showCube v
+        | some (Val.mat v) => showFloatList (v.flatMap id)
+        | none => "none"
+      s!"ok {run .intended} ; {run .current}"
+    | _, _, _ => "bad-op"
+  | ["corrcoef", n, data] =>
+    match n.toNat?, parseFloatList? data with
+    | some n, some d =>
+      let rs := rows n d
+      let m := corrcoefMatrix rs
+      s!"ok {showFloatList (m.flatMap id)}"
     | _, _ => "bad-op"
   | ["corrspec", nm, x1, x2] =>
     match parseFloatList? x1, parseFloatList? x2 with
